@@ -5,36 +5,37 @@
 # under /verif/seeded/<target_id>/ with meta.json extended by what was run.
 set -u
 P=$1; WT=$2; SD=$3; ID=$4; RUNS=${5:-}
+TMPD=$(mktemp -d /tmp/seedrun.XXXXXX); export TMPD
 cd "$WT" || exit 9
 git checkout -q -- permuta 2>/dev/null
-echo "== clean demo"; /venv/bin/python $SD/demo.py > /tmp/seed_clean.out 2>&1; CLEAN=$?; tail -2 /tmp/seed_clean.out
+echo "== clean demo"; /venv/bin/python $SD/demo.py > $TMPD/clean.out 2>&1; CLEAN=$?; tail -2 $TMPD/clean.out
 git apply $SD/patch.diff || { echo "PATCH DOES NOT APPLY"; exit 8; }
-echo "== patched demo"; /venv/bin/python $SD/demo.py > /tmp/seed_patched.out 2>&1; PATCHED=$?; tail -3 /tmp/seed_patched.out
+echo "== patched demo"; /venv/bin/python $SD/demo.py > $TMPD/patched.out 2>&1; PATCHED=$?; tail -3 $TMPD/patched.out
 if [ -n "${SKIP_TESTS:-}" ] && [ -f /verif/seeded/$ID/meta.json ]; then
-  /venv/bin/python -c "import json;print(json.load(open('/verif/seeded/$ID/meta.json'))['confirmed_by_me']['test_suite_on_patched_tree'])" > /tmp/seed_tests.out; echo "== test suite: reusing earlier confirmation: $(cat /tmp/seed_tests.out)"
+  /venv/bin/python -c "import json;print(json.load(open('/verif/seeded/$ID/meta.json'))['confirmed_by_me']['test_suite_on_patched_tree'])" > $TMPD/tests.out; echo "== test suite: reusing earlier confirmation: $(cat $TMPD/tests.out)"
 else
-echo "== test suite (patched)"; timeout 1500 /venv/bin/python -m pytest -q -p no:cacheprovider -x -n 8 --timeout=900 2>&1 | tail -1 | tee /tmp/seed_tests.out
+echo "== test suite (patched)"; timeout 1500 /venv/bin/python -m pytest -q -p no:cacheprovider -x -n 8 --timeout=900 2>&1 | tail -1 | tee $TMPD/tests.out
 fi
 echo "== check $P against patched tree"
 cd /verif
 EXTRA=""; [ -n "$RUNS" ] && EXTRA="--runs $RUNS"
-VERIF_EVIDENCE_DIR=/tmp/seed_ev VERIF_REPLAY_DIR=/tmp/seed_rp ./check $P --repo "$WT" $EXTRA > /tmp/seed_check.out 2>&1; CHK=$?
-grep -E "^violation:|^VIOLATION|HARNESS|quick:" /tmp/seed_check.out | cut -c1-400
+VERIF_EVIDENCE_DIR=$TMPD/ev VERIF_REPLAY_DIR=$TMPD/rp ./check $P --repo "$WT" $EXTRA > $TMPD/check.out 2>&1; CHK=$?
+grep -E "^violation:|^VIOLATION|HARNESS|quick:" $TMPD/check.out | cut -c1-400
 cd "$WT"; git checkout -q -- permuta; rm -rf dfa_db
 echo "clean_exit=$CLEAN patched_exit=$PATCHED check_exit=$CHK"
 mkdir -p /verif/seeded/$ID
 cp $SD/patch.diff /verif/seeded/$ID/patch.diff; cp $SD/demo.py /verif/seeded/$ID/demo.py
 /venv/bin/python - "$SD/meta.json" "/verif/seeded/$ID/meta.json" "$P" "$CLEAN" "$PATCHED" "$CHK" <<'PY'
-import json, sys
+import json, sys, os
 src, dst, prop, clean, patched, chk = sys.argv[1:]
 try: meta = json.load(open(src))
 except Exception: meta = {}
-first = [l for l in open('/tmp/seed_check.out') if l.startswith('violation:')]
+first = [l for l in open(os.environ['TMPD']+'/check.out') if l.startswith('violation:')]
 meta.update({
  "property": prop,
  "confirmed_by_me": {
    "demo_on_clean_tree_exit": int(clean), "demo_on_patched_tree_exit": int(patched),
-   "test_suite_on_patched_tree": open('/tmp/seed_tests.out').read().strip(),
+   "test_suite_on_patched_tree": open(os.environ['TMPD']+'/tests.out').read().strip(),
    "check_command": f"./check {prop} --repo <scratch worktree with patch applied>",
    "check_exit": int(chk), "check_detected": int(chk) == 1,
    "first_violation_reported": first[0].strip()[:400] if first else "",
